@@ -1222,9 +1222,11 @@ class ChoicePayloadDecoder(ConstructedPayloadDecoderBase):
                     **dict(options, allowEoo=True))
 
             else:
+                # the header of the alternative has been read: what follows
+                # are its contents, not the end-of-octets of this CHOICE
                 iterator = decodeFun(
                     substrate, asn1Object.componentType.tagMapUnique,
-                    tagSet, length, state, **dict(options, allowEoo=True))
+                    tagSet, length, state, **options)
 
             for component in iterator:
 
